@@ -6,7 +6,7 @@ CONSTANTS
   RetryMax = 25
   Bursts <- Burst3
   Devices <- OkDevices
-  InitBoards <- BoardsOne
+  InitBoards <- BoardsNick
   StartConnected = TRUE
   MinVer <- MinVer302
   FixStatus = TRUE
